@@ -69,7 +69,12 @@ func (w *valWorld) fork() *valWorld {
 func (w *valWorld) logf(f string, a ...interface{}) { w.path = append(w.path, fmt.Sprintf(f, a...)) }
 
 func newValWorld(run *mon.Run, pfx string, genesis []ValKey, maxVals, retention uint32) *valWorld {
-	e := newL2Env(L2EnvOpts{GenesisVals: genesis, MaxValidators: maxVals, Historical: retention})
+	return newValWorldOpts(run, pfx, L2EnvOpts{GenesisVals: genesis, MaxValidators: maxVals, Historical: retention})
+}
+
+func newValWorldOpts(run *mon.Run, pfx string, o L2EnvOpts) *valWorld {
+	genesis, maxVals, retention := o.GenesisVals, o.MaxValidators, o.Historical
+	e := newL2Env(o)
 	w := &valWorld{run: run, e: e, pfx: pfx, m: &valModel{removedThisBlock: map[string]bool{}, mustHaveHist: map[int64]bool{}, lastBonded: map[string]int64{}}}
 	w.m.retentionEver0 = retention == 0
 	for _, g := range genesis {
